@@ -3,6 +3,8 @@ package checks
 import (
 	"os"
 	"testing"
+
+	"pgregory.net/rapid"
 )
 
 // FuzzC15 is the native (coverage-guided) fuzz target of property C15: a raw string is handed, as an ID, to
@@ -70,4 +72,38 @@ func splitSlash(s string) []string {
 		}
 	}
 	return out
+}
+
+// FuzzProp is the coverage-guided variant of any property's generated check (thorough tier): Go's native fuzzer
+// mutates a byte string which rapid decodes into the draws of the property's own generator (rapid.MakeFuzz), so the
+// cases are exactly the ones the generator can produce and the oracle is the property's check, but the search is
+// steered by branch coverage of the library (size-threshold paths, rarely taken branches). VERIF_PROP selects the
+// property. A failing case is written as a JSON replay file by the worker itself.
+func FuzzProp(f *testing.F) {
+	id := os.Getenv("VERIF_PROP")
+	p := registry[id]
+	if p == nil {
+		f.Skip("VERIF_PROP not set")
+	}
+	// seed corpus: fixed pseudo-random draw streams of several lengths (a linear congruential sequence, not a
+	// run-time random source: the corpus is the same on every run)
+	x := uint64(0x9E3779B97F4A7C15)
+	for _, n := range []int{64, 256, 1024, 4096, 16384} {
+		for k := 0; k < 6; k++ {
+			b := make([]byte, n)
+			for i := range b {
+				x = x*6364136223846793005 + 1442695040888963407
+				b[i] = byte(x >> 56)
+			}
+			f.Add(b)
+		}
+	}
+	f.Fuzz(rapid.MakeFuzz(func(t *rapid.T) {
+		c := p.gen(t)
+		st := newStats(id, "fuzz")
+		if fails := runCheck(p, st, c); len(fails) > 0 {
+			path := writeReplay(p, st, c, fails, "fuzz-"+os.Getenv("VERIF_TAG"))
+			t.Fatalf("property %s violated (%s): %s [replay %s]", id, fails[0].Kind, fails[0].Msg, path)
+		}
+	}))
 }
